@@ -82,8 +82,8 @@ def check(P, rep):
                       'delegated debit of from is must-guarded by allowance(from, spender) >= amount', esite(g, e), None, w)
     # the allowance that stands in for the holder's authorisation must be a LIVE one: a lapsed approval is no authorisation (the expiry
     # clauses of the token rules are part of this property's verdict)
-    include_rules(P, rep, 'C07.T', 'c12', lambda o: o['rule'] in ('C12.R5',),
-                  'a delegated debit draws only on an unexpired allowance of the holder', 1)
+    include_rules(P, rep, 'C07.T', 'c12', lambda o: o['rule'] in ('C12.R5',) or (o['rule'] == 'C12.R4' and 'approve' in (o.get('key') or '') + o['what']),
+                  'a delegated debit draws only on an unexpired allowance of the holder, and the holder\'s approve (including a revocation) really replaces the stored allowance', 1)
     # mint_from: credit guarded by auth(minter) and stored membership of the same minter
     if 'mint_from' in P.crates['interchain_token'].entries:
         g = P.graph('interchain_token', 'mint_from')
